@@ -94,6 +94,7 @@ let functions : (string * (val0 -> val0)) list = [
   ("sig", sig_run);
   ("claim", claim_run);
   ("reg", reg_run);
+  ("oracle", oracle_run);
 ]
 
 (* monitors: (property, suite) -> case -> implementation output -> list of violations *)
@@ -112,6 +113,7 @@ let monitors : ((string * string) * (val0 -> val0 -> val0)) list = [
   (("C14", "claim"), mon_C14);
   (("C16", "reg"), mon_C16);
   (("C17", "reg"), mon_C17);
+  (("C18", "oracle"), mon_C18);
 ]
 
 let first_diff (a : val0) (b : val0) : int =
